@@ -87,16 +87,7 @@ Lemma check_includes_graceful l : forall seen, vgraceful (check_includes seen l)
 Proof. induction l as [|i l IH]; intros seen; cbn [check_includes]; [exact I|]. destruct (existsb _ seen); [exact I|apply IH]. Qed.
 
 Lemma check_identifier_graceful f incs name : vgraceful (check_identifier f incs name).
-Proof.
-  unfold check_identifier.
-  destruct (split_on 46 name []) as [|a [|b [|c [|d l]]]]; try exact I.
-  - destruct (has_constant f name); exact I.
-  - destruct (has_enum_value f a b); [exact I|].
-    destruct (if beqb a [] then Some f else option_map ft_frugal (inc_get incs a)) as [fr|]; [|exact I].
-    destruct (has_constant fr b); exact I.
-  - destruct (option_map ft_frugal (inc_get incs a)) as [fr|]; [|exact I].
-    destruct (has_enum_value fr b c); exact I.
-Qed.
+Proof. unfold check_identifier. destruct (find_identifier f incs name); exact I. Qed.
 Lemma check_constant_graceful f incs rf c : vgraceful (check_constant f incs rf c).
 Proof.
   unfold check_constant. destruct (negb _); [exact I|].
@@ -382,14 +373,14 @@ Qed.
 Lemma resolves_all_mono fuel fuel' rf : resolves_all fuel rf -> (fuel <= fuel')%nat -> resolves_all fuel' rf.
 Proof. intros H Hle t Hnn. destruct (H t Hnn) as [u Hu]. exists u. eapply underlying_mono; eauto. Qed.
 
-Theorem cvalidate_total fuel f incs :
+Theorem cvalidate_decls_total fuel f incs :
   file_names_ok f -> incs_wellvalidated incs ->
   (validate_fuel f incs <= fuel)%nat ->
-  vgraceful (cvalidate fuel f incs).
+  vgraceful (cvalidate_decls fuel f incs).
 Proof.
   intros (Hsv & Hsc & Htd) Hincs Hfuel. unfold validate_fuel in Hfuel.
   pose proof (weight_reduce f incs) as Hw.
-  unfold cvalidate.
+  unfold cvalidate_decls.
   apply rand_graceful; [apply check_services_graceful; exact Hsv|intros _].
   apply rand_graceful; [apply check_scopes_graceful; exact Hsc|intros _].
   apply rand_graceful; [apply check_namespaces_graceful|intros _].
@@ -511,11 +502,11 @@ Record validated_facts (fuel : nat) (f : frugal) (incs : list (bytes * ftree)) :
 Lemma in_flat_map_intro {A B} (g : A -> list B) l a b : In a l -> In b (g a) -> In b (flat_map g l).
 Proof. intros H1 H2. apply in_flat_map. eauto. Qed.
 
-Theorem cvalidate_facts fuel f incs :
+Theorem cvalidate_decls_facts fuel f incs :
   (S (length (fr_typedefs f)) <= fuel)%nat ->
-  cvalidate fuel f incs = ROk -> validated_facts fuel f incs.
+  cvalidate_decls fuel f incs = ROk -> validated_facts fuel f incs.
 Proof.
-  intros Hfuel H. unfold cvalidate in H.
+  intros Hfuel H. unfold cvalidate_decls in H.
   apply rand_ok in H as [_ H]. apply rand_ok in H as [_ H]. apply rand_ok in H as [_ H].
   apply rand_ok in H as [_ H]. apply rand_ok in H as [Hc H]. apply rand_ok in H as [Htd H].
   apply rand_ok in H as [Hs H]. apply rand_ok in H as [Hu H]. apply rand_ok in H as [Hx H].
@@ -569,13 +560,13 @@ Qed.
 
 (** a validated file over validated includes is [wellvalidated] in the sense of C11's typedef
     theorems: UnderlyingType terminates on it within its weight *)
-Theorem cvalidate_wellvalidated fuel f incs :
+Theorem cvalidate_decls_wellvalidated fuel f incs :
   (S (length (fr_typedefs f)) <= fuel)%nat ->
   forallb (fun td => CompilerTotal.name_ok (type_name (td_type td))) (fr_typedefs f) = true ->
   incs_wellvalidated incs ->
-  cvalidate fuel f incs = ROk -> wellvalidated (reduce f incs).
+  cvalidate_decls fuel f incs = ROk -> wellvalidated (reduce f incs).
 Proof.
-  intros Hfuel Hnames Hincs H. destruct (cvalidate_facts fuel f incs Hfuel H) as [Hvt _ Huses _ _ _ _ _ _].
+  intros Hfuel Hnames Hincs H. destruct (cvalidate_decls_facts fuel f incs Hfuel H) as [Hvt _ Huses _ _ _ _ _ _].
   constructor.
   - unfold CompilerTotal.validate_types. rewrite Hvt. cbn [andb].
     apply forallb_forall. intros t Hin. unfold reduce, reduce_with in Hin. cbn [CompilerTotal.uses] in Hin.
@@ -593,6 +584,513 @@ Proof.
 Qed.
 Lemma reduce_with_scopes f sc incs : reduce (with_scopes f sc) incs = reduce f incs.
 Proof. reflexivity. Qed.
+
+(** * validateValues: the pass is total on validated declarations, and what it guarantees *)
+Lemma beqb_str_eqb a : forall b, beqb a b = CompilerTotal.str_eqb a b.
+Proof. intros b. reflexivity. Qed.
+Lemma str_eqb_sym a : forall b, CompilerTotal.str_eqb a b = CompilerTotal.str_eqb b a.
+Proof. induction a as [|x a IH]; intros [|y b]; cbn [CompilerTotal.str_eqb]; try reflexivity. rewrite IH, Z.eqb_sym. reflexivity. Qed.
+
+Lemma inc_get_In incs k sub : inc_get incs k = Some sub -> exists k', In (k', sub) incs.
+Proof.
+  induction incs as [|[k' t] incs IH]; cbn [inc_get]; [discriminate|].
+  destruct (beqb k' k); [intros [= <-]; exists k'; left; reflexivity|].
+  intros H. destruct (IH H) as [k'' Hin]. exists k''. right. exact Hin.
+Qed.
+
+Lemma assoc_reduce_incs incs k :
+  CompilerTotal.assoc k (reduce_incs incs) = option_map reduce_tree (inc_get incs k).
+Proof.
+  unfold reduce_incs. induction incs as [|[k' sub] incs IH]; [reflexivity|].
+  cbn [map fst snd CompilerTotal.assoc inc_get]. change (beqb k' k) with (CompilerTotal.str_eqb k' k). rewrite (str_eqb_sym k' k).
+  destruct (CompilerTotal.str_eqb k k'); [reflexivity|exact IH].
+Qed.
+
+Lemma lookup_last_map {A B} (key : A -> bytes) (h : A -> B) k l :
+  CompilerTotal.lookup_last k (map (fun x => (key x, h x)) l)
+  = option_map h (CompilerTotal.lookup_last k (map (fun x => (key x, x)) l)).
+Proof.
+  induction l as [|x l IH]; [reflexivity|]. cbn [map CompilerTotal.lookup_last]. rewrite IH.
+  destruct (CompilerTotal.lookup_last k (map (fun x0 => (key x0, x0)) l)); [reflexivity|].
+  cbn [option_map]. destruct (CompilerTotal.str_eqb k (key x)); reflexivity.
+Qed.
+
+Definition rscope (sc : vscope) : CompilerTotal.frugal := reduce (fst sc) (snd sc).
+Lemma rscope_tree sub : rscope (scope_of_tree sub) = reduce_tree sub.
+Proof. destruct sub as [name f incs]. unfold rscope. cbn [scope_of_tree fst snd]. symmetry. apply reduce_tree_eq. Qed.
+
+Lemma find_typedef_reduce sc pn :
+  CompilerTotal.lookup_last pn (CompilerTotal.typedefs (rscope sc))
+  = option_map (fun td => ty_of (td_type td)) (find_typedef (fst sc) pn).
+Proof.
+  unfold rscope, reduce, reduce_with, find_typedef. cbn [CompilerTotal.typedefs].
+  apply (lookup_last_map td_name (fun td => ty_of (td_type td))).
+Qed.
+Lemma find_typedef_In g pn td : find_typedef g pn = Some td -> In td (fr_typedefs g).
+Proof.
+  unfold find_typedef. intros H. apply lookup_last_In in H. apply in_map_iff in H as (x & [= _ <-] & Hin). exact Hin.
+Qed.
+
+(** a scope the value pass may read types in: validated, and within the fuel *)
+Definition scope_ok (fuel : nat) (sc : vscope) : Prop :=
+  wellvalidated (rscope sc) /\ (CompilerTotal.weight (rscope sc) <= fuel)%nat.
+
+Lemma scope_ok_sub fuel sc k sub :
+  scope_ok fuel sc -> inc_get (snd sc) k = Some sub -> scope_ok fuel (scope_of_tree sub).
+Proof.
+  intros [Hw Hf] Hg. destruct (inc_get_In _ _ _ Hg) as [k' Hin].
+  assert (In (k', reduce_tree sub) (CompilerTotal.incs (rscope sc))) as Hin'.
+  { unfold rscope, reduce, reduce_with. cbn [CompilerTotal.incs]. unfold reduce_incs.
+    apply in_map_iff. exists (k', sub). split; [reflexivity|exact Hin]. }
+  unfold scope_ok. rewrite rscope_tree. split.
+  - inversion Hw as [g _ _ Hsub]; subst. eapply Hsub. exact Hin'.
+  - pose proof (weight_in _ _ _ Hin') as Hle. rewrite (weight_eq (rscope sc)) in Hf. lia.
+Qed.
+
+Lemma declaring_file_ok fuel sc name d :
+  scope_ok fuel sc -> declaring_file sc name = Some d -> scope_ok fuel d.
+Proof.
+  unfold declaring_file. intros Hok. destruct (CompilerTotal.is_nil _); [intros [= <-]; exact Hok|].
+  destruct (inc_get (snd sc) _) as [sub|] eqn:G; [|discriminate]. intros [= <-]. eapply scope_ok_sub; eauto.
+Qed.
+
+(** underlyingScopedType follows the chain UnderlyingType follows: it ends whenever that does *)
+Lemma uscoped_sim : forall fuel sc t u,
+  CompilerTotal.underlying fuel (rscope sc) (ty_of t) = CompilerTotal.COk u ->
+  exists r, uscoped fuel sc t = Some r.
+Proof.
+  induction fuel as [|fuel IH]; intros sc t u H; [discriminate|].
+  destruct t as [name k v a]. cbn [ty_of CompilerTotal.underlying] in H. cbn [uscoped type_name].
+  unfold declaring_file.
+  destruct (CompilerTotal.is_nil (CompilerTotal.include_name name)) eqn:E; cbn [negb] in H.
+  - rewrite find_typedef_reduce in H.
+    destruct (find_typedef (fst sc) (CompilerTotal.param_name name)) as [td|]; [|eauto].
+    cbn [option_map] in H. eapply IH. exact H.
+  - unfold rscope at 1 in H. unfold reduce, reduce_with in H. cbn [CompilerTotal.incs] in H.
+    rewrite assoc_reduce_incs in H.
+    destruct (inc_get (snd sc) (CompilerTotal.include_name name)) as [sub|]; cbn [option_map] in *; [|eauto].
+    rewrite <- rscope_tree, find_typedef_reduce in H.
+    destruct (find_typedef (fst (scope_of_tree sub)) (CompilerTotal.param_name name)) as [td|]; [|eauto].
+    cbn [option_map] in H.
+    destruct (CompilerTotal.underlying fuel (rscope (scope_of_tree sub)) (ty_of (td_type td))) as [u'| | |] eqn:U;
+      try discriminate.
+    eapply IH. exact U.
+Qed.
+
+Lemma uscoped_total fuel sc t : scope_ok fuel sc -> exists r, uscoped fuel sc t = Some r.
+Proof.
+  intros [Hw Hf]. destruct (underlying_terminates _ Hw (ty_of t) (ty_of_nonnil t)) as [u Hu].
+  eapply uscoped_sim. eapply underlying_mono; [exact Hu|exact Hf].
+Qed.
+
+Definition tvalid (sc : vscope) (t : ptype) : Prop := valid_ty (rscope sc) t = true.
+
+Lemma wellvalidated_typedef_valid sc td :
+  wellvalidated (rscope sc) -> In td (fr_typedefs (fst sc)) -> tvalid sc (td_type td).
+Proof.
+  intros Hw Hin. inversion Hw as [g Hv _ _]; subst. destruct (validate_types_parts _ Hv) as (H1 & _ & _).
+  rewrite forallb_forall in H1. unfold tvalid, valid_ty.
+  apply (H1 (td_name td, ty_of (td_type td))).
+  unfold rscope, reduce, reduce_with. cbn [CompilerTotal.typedefs]. apply in_map_iff. exists td. auto.
+Qed.
+Lemma wellvalidated_use_valid sc t :
+  wellvalidated (rscope sc) -> In t (file_uses (fst sc)) -> tvalid sc t.
+Proof.
+  intros Hw Hin. inversion Hw as [g Hv _ _]; subst. destruct (validate_types_parts _ Hv) as (_ & _ & H3).
+  rewrite forallb_forall in H3. unfold tvalid, valid_ty. apply H3.
+  unfold rscope, reduce, reduce_with. cbn [CompilerTotal.uses]. apply in_map. exact Hin.
+Qed.
+
+(** the result of underlyingScopedType is read in a validated scope and is a valid type there *)
+Lemma uscoped_inv B : forall fuel sc t sc' t',
+  uscoped fuel sc t = Some (sc', t') -> scope_ok B sc -> tvalid sc t -> scope_ok B sc' /\ tvalid sc' t'.
+Proof.
+  induction fuel as [|fuel IH]; intros sc t sc' t' H Hok Hv; [discriminate|].
+  cbn [uscoped] in H.
+  destruct (declaring_file sc (type_name t)) as [d|] eqn:D; [|injection H as <- <-; auto].
+  destruct (find_typedef (fst d) _) as [td|] eqn:F; [|injection H as <- <-; auto].
+  pose proof (declaring_file_ok _ _ _ _ Hok D) as Hd.
+  exact (IH _ _ _ _ H Hd (wellvalidated_typedef_valid _ _ (proj1 Hd) (find_typedef_In _ _ _ F))).
+Qed.
+
+(** element types of a valid container are valid (and present) *)
+Lemma tvalid_list sc n k v a :
+  tvalid sc (PType n k v a) -> beqb n s_list || beqb n s_set = true -> exists et, v = Some et /\ tvalid sc et.
+Proof.
+  unfold tvalid, valid_ty. intros H Hn. cbn [ty_of] in H.
+  assert (n = s_list \/ n = s_set) as [-> | ->]
+      by (apply orb_true_iff in Hn as [Hn|Hn]; apply beqb_eq in Hn; auto);
+    (destruct v as [et|]; [exists et; split; [reflexivity|exact H]|discriminate H]).
+Qed.
+Lemma tvalid_map sc n k v a :
+  tvalid sc (PType n k v a) -> beqb n s_map = true ->
+  exists kt et, k = Some kt /\ v = Some et /\ tvalid sc kt /\ tvalid sc et.
+Proof.
+  unfold tvalid, valid_ty. intros H Hn. apply beqb_eq in Hn. subst n. cbn [ty_of] in H.
+  destruct k as [kt|]; [|discriminate H]. destruct v as [et|].
+  - cbn in H. apply andb_true_iff in H as [H1 H2]. exists kt, et. auto.
+  - cbn in H. rewrite andb_false_r in H. discriminate.
+Qed.
+
+Lemma find_struct_like_field fuel sc n d s fd :
+  scope_ok fuel sc -> find_struct_like sc n = Some (d, s) -> In fd (s_fields s) ->
+  scope_ok fuel d /\ tvalid d (f_type fd).
+Proof.
+  unfold find_struct_like. intros Hok H Hfd.
+  destruct (declaring_file sc n) as [d'|] eqn:D; [|discriminate].
+  destruct (find _ _) as [x|] eqn:F; [|discriminate]. injection H as <- <-.
+  pose proof (declaring_file_ok _ _ _ _ Hok D) as Hd. split; [exact Hd|].
+  apply find_some in F as [Hin _]. apply (wellvalidated_use_valid _ _ (proj1 Hd)).
+  unfold file_uses. apply in_or_app. right.
+  apply in_app_or in Hin as [Hin|Hin].
+  - apply in_or_app. left. apply in_flat_map. exists x. split; [exact Hin|apply in_map; exact Hfd].
+  - apply in_or_app. right. apply in_app_or in Hin as [Hin|Hin].
+    + apply in_or_app. left. apply in_flat_map. exists x. split; [exact Hin|apply in_map; exact Hfd].
+    + apply in_or_app. right. apply in_or_app. left. apply in_flat_map. exists x. split; [exact Hin|apply in_map; exact Hfd].
+Qed.
+
+(** induction over constant values (nested through lists and pairs) *)
+Section CvalueInd.
+  Variable P : cvalue -> Prop.
+  Hypothesis Hstr : forall s, P (CStr s).
+  Hypothesis Hbool : forall b, P (CBool b).
+  Hypothesis Hint : forall z, P (CInt z).
+  Hypothesis Hdouble : forall b, P (CDouble b).
+  Hypothesis Hlist : forall l, Forall P l -> P (CList l).
+  Hypothesis Hmap : forall l, Forall (fun kv => P (fst kv) /\ P (snd kv)) l -> P (CMap l).
+  Hypothesis Hident : forall s, P (CIdent s).
+  Hypothesis Hother : P COther.
+  Fixpoint cvalue_rect' (v : cvalue) : P v :=
+    match v with
+    | CStr s => Hstr s
+    | CBool b => Hbool b
+    | CInt z => Hint z
+    | CDouble b => Hdouble b
+    | CList l => Hlist l ((fix go (l : list cvalue) : Forall P l :=
+                             match l with [] => Forall_nil _ | x :: r => Forall_cons x (cvalue_rect' x) (go r) end) l)
+    | CMap l => Hmap l ((fix go (l : list (cvalue * cvalue)) : Forall (fun kv => P (fst kv) /\ P (snd kv)) l :=
+                           match l with
+                           | [] => Forall_nil _
+                           | (k, x) :: r => Forall_cons (k, x) (conj (cvalue_rect' k) (cvalue_rect' x)) (go r)
+                           end) l)
+    | CIdent s => Hident s
+    | COther => Hother
+    end.
+End CvalueInd.
+
+(** the constants an identifier can name have valid types in validated files *)
+Definition home_ok (fuel : nat) (home : vscope) : Prop := scope_ok fuel home.
+
+Lemma find_identifier_const_scope fuel home name decl c :
+  scope_ok fuel home -> find_identifier (fst home) (snd home) name = inr (IConst decl c) -> scope_ok fuel decl.
+Proof.
+  intros Hok. unfold find_identifier.
+  destruct (split_on 46 name []) as [|a [|b [|c0 [|d l]]]]; try discriminate.
+  - destruct (find_constant _ _); [|discriminate]. intros [= <- _]. destruct home; exact Hok.
+  - destruct (find_enum_value _ a b) as [[e v]|]; [discriminate|].
+    destruct (beqb a []).
+    + destruct (find_constant _ _); [|discriminate]. intros [= <- _]. destruct home; exact Hok.
+    + destruct (inc_get (snd home) a) as [sub|] eqn:G; cbn [option_map]; [|discriminate].
+      destruct (find_constant _ _); [|discriminate]. intros [= <- _]. eapply scope_ok_sub; eauto.
+  - destruct (option_map ft_frugal _); [|discriminate]. destruct (find_enum_value _ _ _) as [[e v]|]; discriminate.
+Qed.
+
+Lemma ralls_eq {X} (p : X -> vr) l : ralls p l = rall p l.
+Proof.
+  induction l as [|x l IH]; [reflexivity|]. cbn [rall].
+  change (ralls p (x :: l)) with (rand (p x) (fun _ => ralls p l)). rewrite IH. reflexivity.
+Qed.
+Lemma fields_named_graceful chk name fs :
+  (forall fd, In fd fs -> vgraceful (chk fd)) -> vgraceful (fields_named chk name fs).
+Proof.
+  induction fs as [|fd fs IH]; intros H; [exact I|].
+  change (fields_named chk name (fd :: fs)) with
+      (if beqb (f_name fd) name then rand (chk fd) (fun _ => fields_named chk name fs) else fields_named chk name fs).
+  assert (vgraceful (fields_named chk name fs)) as Hr by (apply IH; intros x Hx; apply H; right; exact Hx).
+  destruct (beqb (f_name fd) name); [|exact Hr].
+  apply rand_graceful; [apply H; left; reflexivity|intros _; exact Hr].
+Qed.
+Lemma fields_named_ok chk name fs :
+  fields_named chk name fs = ROk -> forall fd, In fd fs -> f_name fd = name -> chk fd = ROk.
+Proof.
+  induction fs as [|fd fs IH]; intros H x Hx Hn; [destruct Hx|].
+  change (fields_named chk name (fd :: fs)) with
+      (if beqb (f_name fd) name then rand (chk fd) (fun _ => fields_named chk name fs) else fields_named chk name fs) in H.
+  destruct Hx as [<-|Hx].
+  - rewrite Hn, beqb_refl in H. apply rand_ok in H. apply H.
+  - destruct (beqb (f_name fd) name); [apply rand_ok in H as [_ H]|]; exact (IH H x Hx Hn).
+Qed.
+
+Lemma check_value_graceful fuel home what : scope_ok fuel home ->
+  forall v sc t, scope_ok fuel sc -> tvalid sc t -> vgraceful (check_value fuel home what sc t v).
+Proof.
+  intros Hhome. induction v as [s|b|z|b|l IHl|l IHl|name|] using cvalue_rect'; intros sc t Hok Hv;
+    destruct (uscoped_total fuel sc t Hok) as [[sc' t'] U];
+    destruct (uscoped_inv _ _ _ _ _ _ U Hok Hv) as [Hok' Hv'].
+  - cbn [check_value]. rewrite U. destruct (_ || _); exact I.
+  - cbn [check_value]. rewrite U. destruct (beqb _ _); exact I.
+  - cbn [check_value]. rewrite U.
+    repeat (match goal with |- vgraceful (if ?c then _ else _) => destruct c end; try exact I).
+    destruct (find_enum sc' _); [|exact I]. destruct (existsb _ _); exact I.
+  - cbn [check_value]. rewrite U. destruct (beqb _ _); exact I.
+  - cbn [check_value]. rewrite U. destruct (_ || _) eqn:N; [|exact I].
+    destruct t' as [n k v a]. cbn [type_name] in N. destruct (tvalid_list _ _ _ _ _ Hv' N) as (et & -> & Het).
+    rewrite ralls_eq. apply rall_graceful. intros x Hx. cbn [elem_type].
+    rewrite Forall_forall in IHl. apply IHl; assumption.
+  - cbn [check_value]. rewrite U. rewrite Forall_forall in IHl. destruct (beqb (type_name t') s_map) eqn:N.
+    + destruct t' as [n k v a]. cbn [type_name] in N. destruct (tvalid_map _ _ _ _ _ Hv' N) as (kt & et & -> & -> & Hkt & Het).
+      rewrite ralls_eq. apply rall_graceful. intros kv Hkv. cbn [key_type elem_type].
+      destruct (IHl kv Hkv) as [Hk Hx].
+      apply rand_graceful; [apply Hk; assumption|intros _; apply Hx; assumption].
+    + destruct (find_struct_like sc' (type_name t')) as [[d s]|] eqn:F; [|exact I].
+      rewrite ralls_eq. apply rall_graceful. intros kv Hkv. destruct (IHl kv Hkv) as [_ Hx].
+      assert (forall name, vgraceful (fields_named (fun fd => check_value fuel home what d (f_type fd) (snd kv)) name (s_fields s))) as Hf.
+      { intros name. apply fields_named_graceful. intros fd Hfd.
+        destruct (find_struct_like_field fuel sc' _ d s fd Hok' F Hfd) as [Hd Hfv]. apply Hx; assumption. }
+      cbn zeta. destruct (fst kv); try exact I; apply Hf.
+  - cbn [check_value]. rewrite U.
+    destruct (find_identifier (fst home) (snd home) name) as [m|[decl c|e ev]] eqn:FI; [exact I| |].
+    + pose proof (find_identifier_const_scope _ _ _ _ _ Hhome FI) as Hdecl.
+      destruct (uscoped_total fuel decl (c_type c) Hdecl) as [[dsc dt] U2]. rewrite U2.
+      destruct (_ || _); exact I.
+    + destruct (find_enum sc' _); [|exact I]. destruct (_ && _); exact I.
+  - cbn [check_value]. rewrite U. exact I.
+Qed.
+
+Lemma uses_constant f c : In c (fr_constants f) -> In (c_type c) (file_uses f).
+Proof. intros H. unfold file_uses. apply in_or_app. left. apply in_map. exact H. Qed.
+Lemma uses_struct_field f s fd :
+  In s (fr_structs f ++ fr_unions f ++ fr_exceptions f) -> In fd (s_fields s) -> In (f_type fd) (file_uses f).
+Proof.
+  intros Hs Hfd. unfold file_uses. apply in_or_app. right.
+  apply in_app_or in Hs as [Hs|Hs].
+  - apply in_or_app. left. apply in_flat_map. exists s. split; [exact Hs|apply in_map; exact Hfd].
+  - apply in_or_app. right. apply in_app_or in Hs as [Hs|Hs].
+    + apply in_or_app. left. apply in_flat_map. exists s. split; [exact Hs|apply in_map; exact Hfd].
+    + apply in_or_app. right. apply in_or_app. left. apply in_flat_map. exists s. split; [exact Hs|apply in_map; exact Hfd].
+Qed.
+Lemma uses_method_field f sv m fd :
+  In sv (fr_services f) -> In m (sv_methods sv) -> In fd (m_args m ++ m_throws m) -> In (f_type fd) (file_uses f).
+Proof.
+  intros Hs Hm Hfd. unfold file_uses. apply in_or_app. right. apply in_or_app. right. apply in_or_app. right.
+  apply in_or_app. right. apply in_flat_map. exists sv. split; [exact Hs|]. apply in_flat_map. exists m. split; [exact Hm|].
+  unfold method_types. apply in_or_app. right. rewrite <- map_app. apply in_map. exact Hfd.
+Qed.
+
+Lemma check_defaults_graceful fuel home wh fs :
+  scope_ok fuel home -> (forall fd, In fd fs -> tvalid home (f_type fd)) -> vgraceful (check_defaults fuel home wh fs).
+Proof.
+  intros Hh Hv. unfold check_defaults. apply rall_graceful. intros fd Hin.
+  destruct (f_default fd); [|exact I]. apply check_value_graceful; auto.
+Qed.
+
+Lemma check_values_graceful fuel f incs :
+  scope_ok fuel (f, incs) -> vgraceful (check_values fuel f incs).
+Proof.
+  intros Hh. pose proof (wellvalidated_use_valid (f, incs)) as Hu. cbn [fst] in Hu. specialize (fun t => Hu t (proj1 Hh)).
+  unfold check_values. apply rand_graceful.
+  - apply rall_graceful. intros c Hc. apply check_value_graceful; [exact Hh|exact Hh|]. apply Hu, uses_constant, Hc.
+  - intros _. apply rand_graceful.
+    + apply rall_graceful. intros s Hs. apply check_defaults_graceful; [exact Hh|].
+      intros fd Hfd. eapply Hu, uses_struct_field; eauto.
+    + intros _. apply rall_graceful. intros sv Hsv. apply rall_graceful. intros m Hm. apply rand_graceful.
+      * apply check_defaults_graceful; [exact Hh|]. intros fd Hfd. eapply Hu, uses_method_field; eauto. apply in_or_app. left. exact Hfd.
+      * intros _. apply check_defaults_graceful; [exact Hh|]. intros fd Hfd. eapply Hu, uses_method_field; eauto. apply in_or_app. right. exact Hfd.
+Qed.
+
+Lemma validate_fuel_typedefs f incs : (S (length (fr_typedefs f)) <= validate_fuel f incs)%nat.
+Proof. unfold validate_fuel. rewrite weight_reduce. lia. Qed.
+
+Lemma cvalidate_ok fuel f incs :
+  cvalidate fuel f incs = ROk -> cvalidate_decls fuel f incs = ROk /\ check_values fuel f incs = ROk.
+Proof. unfold cvalidate. apply rand_ok. Qed.
+
+(** the file under validation once its declarations have been accepted *)
+Lemma home_scope_ok fuel f incs :
+  forallb (fun td => CompilerTotal.name_ok (type_name (td_type td))) (fr_typedefs f) = true ->
+  incs_wellvalidated incs -> (validate_fuel f incs <= fuel)%nat ->
+  cvalidate_decls fuel f incs = ROk -> scope_ok fuel (f, incs).
+Proof.
+  intros Hn Hincs Hfuel Hd. pose proof (validate_fuel_typedefs f incs) as Ht. split.
+  - unfold rscope. cbn [fst snd]. apply (cvalidate_decls_wellvalidated fuel f incs); [lia|exact Hn|exact Hincs|exact Hd].
+  - unfold rscope. cbn [fst snd]. unfold validate_fuel in Hfuel. lia.
+Qed.
+
+Theorem cvalidate_total fuel f incs :
+  file_names_ok f -> incs_wellvalidated incs ->
+  (validate_fuel f incs <= fuel)%nat ->
+  vgraceful (cvalidate fuel f incs).
+Proof.
+  intros Hn Hincs Hfuel. unfold cvalidate. apply rand_graceful; [apply cvalidate_decls_total; assumption|].
+  intros Hd. apply check_values_graceful. destruct Hn as (_ & _ & Hn). eapply home_scope_ok; eauto.
+Qed.
+
+Theorem cvalidate_facts fuel f incs :
+  (S (length (fr_typedefs f)) <= fuel)%nat ->
+  cvalidate fuel f incs = ROk -> validated_facts fuel f incs.
+Proof. intros Hf H. apply cvalidate_decls_facts; [exact Hf|]. apply cvalidate_ok in H. apply H. Qed.
+
+Theorem cvalidate_wellvalidated fuel f incs :
+  (S (length (fr_typedefs f)) <= fuel)%nat ->
+  forallb (fun td => CompilerTotal.name_ok (type_name (td_type td))) (fr_typedefs f) = true ->
+  incs_wellvalidated incs ->
+  cvalidate fuel f incs = ROk -> wellvalidated (reduce f incs).
+Proof. intros Hf Hn Hi H. eapply cvalidate_decls_wellvalidated; eauto. apply cvalidate_ok in H. apply H. Qed.
+
+(** * What validateValues guarantees: every value conforms to its declared type *)
+(** underlyingScopedType as a relation (no fuel): follow typedefs, each target read in the file
+    which declares the typedef, until a name that is not a typedef *)
+Inductive scoped_underlying : vscope -> ptype -> vscope -> ptype -> Prop :=
+| SU_unknown sc t : declaring_file sc (type_name t) = None -> scoped_underlying sc t sc t
+| SU_end sc t d : declaring_file sc (type_name t) = Some d ->
+                  find_typedef (fst d) (CompilerTotal.param_name (type_name t)) = None -> scoped_underlying sc t sc t
+| SU_step sc t d td sc' t' :
+    declaring_file sc (type_name t) = Some d ->
+    find_typedef (fst d) (CompilerTotal.param_name (type_name t)) = Some td ->
+    scoped_underlying d (td_type td) sc' t' -> scoped_underlying sc t sc' t'.
+
+Lemma uscoped_su : forall fuel sc t sc' t', uscoped fuel sc t = Some (sc', t') -> scoped_underlying sc t sc' t'.
+Proof.
+  induction fuel as [|fuel IH]; intros sc t sc' t' H; [discriminate|]. cbn [uscoped] in H.
+  destruct (declaring_file sc (type_name t)) as [d|] eqn:D; [|injection H as <- <-; apply SU_unknown; exact D].
+  destruct (find_typedef (fst d) _) as [td|] eqn:F; [|injection H as <- <-; eapply SU_end; eauto].
+  eapply SU_step; eauto.
+Qed.
+
+Definition fits (bits z : Z) : Prop := - 2 ^ (bits - 1) <= z < 2 ^ (bits - 1).
+Lemma in_range_fits bits z : in_range bits z = true -> fits bits z.
+Proof. unfold in_range, fits. intros H. apply andb_true_iff in H as [H1 H2]. apply Z.leb_le in H1. apply Z.ltb_lt in H2. auto. Qed.
+
+(** an integer literal for a base type *)
+Definition int_fits (n : bytes) (z : Z) : Prop :=
+  ((n = s_i8 \/ n = s_byte) /\ fits 8 z) \/ (n = s_i16 /\ fits 16 z) \/ (n = s_i32 /\ fits 32 z)
+  \/ n = s_i64 \/ n = s_double.
+
+Definition key_name (k : cvalue) : option bytes :=
+  match k with CStr n => Some n | CIdent n => Some n | _ => None end.
+
+(** [conforms home sc t v]: the value [v], written in the file [home], conforms to the type [t]
+    read in the scope [sc] *)
+Inductive conforms (home : vscope) : vscope -> ptype -> cvalue -> Prop :=
+| CF_string sc t sc' t' s :
+    scoped_underlying sc t sc' t' -> type_name t' = s_string \/ type_name t' = s_binary ->
+    conforms home sc t (CStr s)
+| CF_bool sc t sc' t' b :
+    scoped_underlying sc t sc' t' -> type_name t' = s_bool -> conforms home sc t (CBool b)
+| CF_double sc t sc' t' b :
+    scoped_underlying sc t sc' t' -> type_name t' = s_double -> conforms home sc t (CDouble b)
+| CF_int sc t sc' t' z :
+    scoped_underlying sc t sc' t' -> int_fits (type_name t') z -> conforms home sc t (CInt z)
+| CF_enum_number sc t sc' t' z e :
+    scoped_underlying sc t sc' t' -> find_enum sc' (type_name t') = Some e ->
+    (exists x, In x (en_values e) /\ ev_value x = z) -> conforms home sc t (CInt z)
+| CF_list sc t sc' t' l :
+    scoped_underlying sc t sc' t' -> type_name t' = s_list \/ type_name t' = s_set ->
+    Forall (fun x => exists et, elem_type t' = Some et /\ conforms home sc' et x) l ->
+    conforms home sc t (CList l)
+| CF_map sc t sc' t' l :
+    scoped_underlying sc t sc' t' -> type_name t' = s_map ->
+    Forall (fun kv => exists kt vt, key_type t' = Some kt /\ elem_type t' = Some vt
+                                    /\ conforms home sc' kt (fst kv) /\ conforms home sc' vt (snd kv)) l ->
+    conforms home sc t (CMap l)
+| CF_struct sc t sc' t' d s l :
+    scoped_underlying sc t sc' t' -> type_name t' <> s_map -> find_struct_like sc' (type_name t') = Some (d, s) ->
+    Forall (fun kv => exists name, key_name (fst kv) = Some name
+                                   /\ forall fd, In fd (s_fields s) -> f_name fd = name ->
+                                                 conforms home d (f_type fd) (snd kv)) l ->
+    conforms home sc t (CMap l)
+| CF_constant sc t sc' t' name decl c dsc dt :
+    scoped_underlying sc t sc' t' ->
+    find_identifier (fst home) (snd home) name = inr (IConst decl c) ->
+    scoped_underlying decl (c_type c) dsc dt ->
+    value_kind sc' t' = value_kind dsc dt \/ (value_kind sc' t' = s_double /\ value_kind dsc dt = k_integer) ->
+    conforms home sc t (CIdent name)
+| CF_enum_value sc t sc' t' name e ev e' :
+    scoped_underlying sc t sc' t' ->
+    find_identifier (fst home) (snd home) name = inr (IEnum e ev) ->
+    find_enum sc' (type_name t') = Some e' -> en_name e' = en_name e ->
+    (exists x, In x (en_values e') /\ ev_name x = ev_name ev) ->
+    conforms home sc t (CIdent name).
+
+Lemma beqb_neq a b : beqb a b = false -> a <> b.
+Proof. intros H E. subst b. rewrite beqb_refl in H. discriminate. Qed.
+
+Lemma check_value_sound fuel home what :
+  forall v sc t, check_value fuel home what sc t v = ROk -> conforms home sc t v.
+Proof.
+  induction v as [s|b|z|b|l IHl|l IHl|name|] using cvalue_rect'; intros sc t H; cbn [check_value] in H;
+    destruct (uscoped fuel sc t) as [[sc' t']|] eqn:U; try discriminate; apply uscoped_su in U.
+  - destruct (_ || _) eqn:N; [|discriminate]. eapply CF_string; [exact U|].
+    apply orb_true_iff in N as [N|N]; apply beqb_eq in N; auto.
+  - destruct (beqb _ _) eqn:N; [|discriminate]. apply beqb_eq in N. eapply CF_bool; eauto.
+  - destruct (beqb (type_name t') s_i8 || beqb (type_name t') s_byte) eqn:N1.
+    { destruct (in_range 8 z) eqn:R; [|discriminate]. eapply CF_int; [exact U|]. left. split; [|apply in_range_fits; exact R].
+      apply orb_true_iff in N1 as [N|N]; apply beqb_eq in N; auto. }
+    destruct (beqb (type_name t') s_i16) eqn:N2.
+    { destruct (in_range 16 z) eqn:R; [|discriminate]. eapply CF_int; [exact U|]. right. left. apply beqb_eq in N2.
+      split; [exact N2|apply in_range_fits; exact R]. }
+    destruct (beqb (type_name t') s_i32) eqn:N3.
+    { destruct (in_range 32 z) eqn:R; [|discriminate]. eapply CF_int; [exact U|]. right. right. left. apply beqb_eq in N3.
+      split; [exact N3|apply in_range_fits; exact R]. }
+    destruct (beqb (type_name t') s_i64 || beqb (type_name t') s_double) eqn:N4.
+    { eapply CF_int; [exact U|]. right. right. right. apply orb_true_iff in N4 as [N|N]; apply beqb_eq in N; auto. }
+    destruct (find_enum sc' (type_name t')) as [e|] eqn:E; [|discriminate].
+    destruct (existsb _ (en_values e)) eqn:X; [|discriminate].
+    apply existsb_exists in X as (x & Hx & Hz). apply Z.eqb_eq in Hz. eapply CF_enum_number; eauto.
+  - destruct (beqb _ _) eqn:N; [|discriminate]. apply beqb_eq in N. eapply CF_double; eauto.
+  - destruct (_ || _) eqn:N; [|discriminate]. rewrite ralls_eq in H.
+    eapply CF_list; [exact U|apply orb_true_iff in N as [N|N]; apply beqb_eq in N; auto|].
+    rewrite Forall_forall in *. intros x Hx. pose proof (rall_ok _ _ H x Hx) as Hc. cbn beta in Hc.
+    destruct (elem_type t') as [et|]; [|discriminate]. exists et. split; [reflexivity|]. apply IHl; assumption.
+  - rewrite Forall_forall in IHl. destruct (beqb (type_name t') s_map) eqn:N.
+    + rewrite ralls_eq in H. apply beqb_eq in N. eapply CF_map; [exact U|exact N|].
+      rewrite Forall_forall. intros kv Hkv. pose proof (rall_ok _ _ H kv Hkv) as Hc. cbn beta in Hc.
+      destruct (key_type t') as [kt|]; [|discriminate]. apply rand_ok in Hc as [Hk Hc].
+      destruct (elem_type t') as [vt|]; [|discriminate]. destruct (IHl kv Hkv) as [IHk IHx].
+      exists kt, vt. repeat split; auto.
+    + destruct (find_struct_like sc' (type_name t')) as [[d s]|] eqn:F; [|discriminate].
+      rewrite ralls_eq in H. eapply CF_struct; [exact U|apply beqb_neq; exact N|exact F|].
+      rewrite Forall_forall. intros kv Hkv. pose proof (rall_ok _ _ H kv Hkv) as Hc. cbn beta zeta in Hc.
+      destruct (IHl kv Hkv) as [_ IHx].
+      destruct (fst kv) as [kn| | | | | |kn|] eqn:K; try discriminate; exists kn; (split; [reflexivity|]);
+        intros fd Hfd Hn; apply IHx; exact (fields_named_ok _ _ _ Hc fd Hfd Hn).
+  - destruct (find_identifier (fst home) (snd home) name) as [m|[decl c|e ev]] eqn:FI; [discriminate| |].
+    + destruct (uscoped fuel decl (c_type c)) as [[dsc dt]|] eqn:U2; [|discriminate]. apply uscoped_su in U2.
+      destruct (_ || _) eqn:K; [|discriminate]. eapply CF_constant; eauto.
+      apply orb_true_iff in K as [K|K]; [left; apply beqb_eq; exact K|].
+      apply andb_true_iff in K as [K1 K2]. right. split; apply beqb_eq; assumption.
+    + destruct (find_enum sc' (type_name t')) as [e'|] eqn:E; [|discriminate].
+      destruct (_ && _) eqn:K; [|discriminate]. apply andb_true_iff in K as [K1 K2]. apply beqb_eq in K1.
+      apply existsb_exists in K2 as (x & Hx & Hn). apply beqb_eq in Hn. eapply CF_enum_value; eauto.
+Qed.
+
+(** every constant and every default value of an accepted file conforms to its declared type *)
+Definition values_conform (f : frugal) (incs : list (bytes * ftree)) : Prop :=
+  let home : vscope := (f, incs) in
+  (forall c, In c (fr_constants f) -> conforms home home (c_type c) (c_value c))
+  /\ (forall s fd v, In s (fr_structs f ++ fr_unions f ++ fr_exceptions f) -> In fd (s_fields s) ->
+                     f_default fd = Some v -> conforms home home (f_type fd) v)
+  /\ (forall sv m fd v, In sv (fr_services f) -> In m (sv_methods sv) -> In fd (m_args m ++ m_throws m) ->
+                        f_default fd = Some v -> conforms home home (f_type fd) v).
+
+Lemma check_defaults_sound fuel home wh fs :
+  check_defaults fuel home wh fs = ROk ->
+  forall fd v, In fd fs -> f_default fd = Some v -> conforms home home (f_type fd) v.
+Proof.
+  intros H fd v Hin Hd. pose proof (rall_ok _ _ H fd Hin) as Hc. cbn beta in Hc. rewrite Hd in Hc.
+  eapply check_value_sound. exact Hc.
+Qed.
+
+Theorem validated_constants_fit fuel f incs : cvalidate fuel f incs = ROk -> values_conform f incs.
+Proof.
+  intros H. apply cvalidate_ok in H as [_ H]. unfold check_values in H.
+  apply rand_ok in H as [Hc H]. apply rand_ok in H as [Hs Hm]. repeat split.
+  - intros c Hin. eapply check_value_sound. exact (rall_ok _ _ Hc c Hin).
+  - intros s fd v Hin Hfd Hd. eapply check_defaults_sound; [exact (rall_ok _ _ Hs s Hin)|exact Hfd|exact Hd].
+  - intros sv m fd v Hsv Hmm Hfd Hd. pose proof (rall_ok _ _ (rall_ok _ _ Hm sv Hsv) m Hmm) as Hmc. cbn beta zeta in Hmc.
+    apply rand_ok in Hmc as [Ha Ht]. apply in_app_or in Hfd as [Hfd|Hfd];
+      [eapply check_defaults_sound; [exact Ha|exact Hfd|exact Hd]|eapply check_defaults_sound; [exact Ht|exact Hfd|exact Hd]].
+Qed.
 
 Lemma inc_put_In acc key t k sub :
   In (k, sub) (inc_put acc key t) -> (k, sub) = (key, t) \/ In (k, sub) acc.
@@ -648,11 +1146,15 @@ Proof.
   - apply IH; [exact Hl|]. intros Hin. apply Hx. right. exact Hin.
 Qed.
 
-Lemma validate_fuel_typedefs f incs : (S (length (fr_typedefs f)) <= validate_fuel f incs)%nat.
-Proof. unfold validate_fuel. rewrite weight_reduce. lia. Qed.
+Lemma dup_name_none name c : dup_name name c = None -> ~ In name (map fst c).
+Proof.
+  induction c as [|[n q] c IH]; cbn [dup_name map fst]; [intros _ []|].
+  destruct (beqb n name) eqn:E; [discriminate|]. intros H [Hx|Hx]; [|exact (IH H Hx)].
+  subst n. rewrite beqb_refl in E. discriminate.
+Qed.
 
 Theorem cparse_good fs : fs_names_ok fs -> forall fuel p visited,
-  NoDup visited -> incl visited (stems fs) ->
+  NoDup (map fst visited) -> incl (map fst visited) (stems fs) ->
   (length fs - length visited < fuel)%nat ->
   pres_good (cparse fuel fs p visited).
 Proof.
@@ -660,16 +1162,17 @@ Proof.
   cbn [cparse].
   destruct (pfs_get fs p) as [e|] eqn:G; [|exact I].
   destruct (file_stem p) as [name|] eqn:S; [|exact I].
-  destruct (existsb (beqb name) visited) eqn:V; [exact I|].
+  destruct (existsb (path_eqb p) (map snd visited)); [exact I|].
+  destruct (dup_name name visited) eqn:V; [exact I|].
   destruct e as [f|msg]; [|exact I].
-  apply pfs_get_In in G.
-  assert (NoDup (visited ++ [name])) as Hnd' by (apply NoDup_snoc; [exact Hnd|apply existsb_beqb_false; exact V]).
-  assert (incl (visited ++ [name]) (stems fs)) as Hincl'.
-  { intros x Hx. apply in_app_or in Hx as [Hx|[<-|[]]]; [auto|].
+  apply pfs_get_In in G. apply dup_name_none in V.
+  assert (NoDup (map fst (visited ++ [(name, p)]))) as Hnd' by (rewrite map_app; apply NoDup_snoc; assumption).
+  assert (incl (map fst (visited ++ [(name, p)])) (stems fs)) as Hincl'.
+  { rewrite map_app. intros x Hx. apply in_app_or in Hx as [Hx|[<-|[]]]; [auto|].
     unfold stems. apply in_map_iff. exists (p, FParsed f). cbn [fst]. rewrite S. auto. }
-  pose proof (NoDup_incl_length Hnd' Hincl') as Hlen. unfold stems in Hlen. rewrite map_length, app_length in Hlen.
+  pose proof (NoDup_incl_length Hnd' Hincl') as Hlen. unfold stems in Hlen. rewrite !map_length, app_length in Hlen.
   cbn [length] in Hlen.
-  pose proof (includes_loop_good (fun q => cparse fuel fs q (visited ++ [name])) (removelast p) (fr_includes f) []) as HL.
+  pose proof (includes_loop_good (fun q => cparse fuel fs q (visited ++ [(name, p)])) (removelast p) (fr_includes f) []) as HL.
   destruct (includes_loop _ _ _ _) as [e|incs].
   - apply HL; [|intros k sub []]. intros q. apply IH; [exact Hnd'|exact Hincl'|rewrite app_length; cbn [length]; lia].
   - assert (incs_wellvalidated incs) as Hincs.
@@ -783,21 +1286,132 @@ Definition w_consts : frugal :=
      mkconst None (T "y") (ty0 "i32") (CStr (T "hello")) [];
      mkconst None (T "z") (PType s_list None (Some (ty0 "i32")) []) (CList [CIdent (T "nope")]) []]
     [] [] [] [] [] [].
-Lemma constants_fit_refuted :
-  cvalidate 10 w_consts [] = ROk
+(** before the repair of C11-K13 all three passed validation; now the first that does not conform
+    is reported, and each of them alone is *)
+Definition only_const (i : nat) : frugal :=
+  mkfrugal [] [] [] (firstn 1 (skipn i (fr_constants w_consts))) [] [] [] [] [] [].
+Lemma constants_fit_pinned_refuted :
+  cvalidate_pinned 10 w_consts [] = ROk
   /\ forallb (fun c => shape_fits (c_type c) (c_value c)) (firstn 2 (fr_constants w_consts)) = false
-  /\ check_identifier w_consts [] (T "nope") <> ROk.
-Proof. split; [vm_compute; reflexivity|split; [vm_compute; reflexivity|vm_compute; discriminate]]. Qed.
+  /\ check_identifier w_consts [] (T "nope") <> ROk
+  /\ cvalidate 10 (only_const 0) [] = RErr (T "Invalid value for constant x: expected list<i32>, got integer 5")
+  /\ cvalidate 10 (only_const 1) [] = RErr (T "Invalid value for constant y: expected i32, got a string")
+  /\ cvalidate 10 (only_const 2) [] = RErr (T "Referenced constant nope not found")
+  /\ cvalidate 10 w_consts [] = RErr (T "Invalid value for constant x: expected list<i32>, got integer 5").
+Proof.
+  split; [vm_compute; reflexivity|]. split; [vm_compute; reflexivity|]. split; [vm_compute; discriminate|].
+  repeat split; vm_compute; reflexivity.
+Qed.
 
-(** x.frugal: include "sub/x.frugal"     sub/x.frugal: (empty) -- no cycle, rejected as one *)
+(** non-vacuity of [validated_constants_fit]: a two-file program with values of every shape
+    (typedef chains into the include, enums by number and by name, a struct literal with an
+    identifier key and a key which names no field, references to constants, defaults of fields,
+    arguments and exceptions) is accepted *)
+Definition tyl (e : ptype) : ptype := PType s_list None (Some e) [].
+Definition tym (k e : ptype) : ptype := PType s_map (Some k) (Some e) [].
+Definition fldd (id : Z) (n : string) (t : ptype) (d : cvalue) : field := mkfield None id (T n) 0 t (Some d) [].
+Definition kv (k : string) (v : cvalue) : cvalue * cvalue := (CStr (T k), v).
+Definition vx_inc : frugal :=
+  mkfrugal [] []
+    [mktypedef None (T "Shorts") (tyl (ty0 "i16")) []; mktypedef None (T "FarT") (ty0 "FarS") []]
+    [mkconst None (T "farInt") (ty0 "i32") (CInt 3) []]
+    [mkenum None (T "Color") [mkev None (T "RED") 1 []; mkev None (T "GREEN") 2 []] []]
+    [mkstruct None (T "FarS") [fld 1 "a" (ty0 "i32"); fldd 2 "c" (ty0 "Color") (CIdent (T "Color.RED"))] 0 []]
+    [] [] [] [].
+Definition vx_root : frugal :=
+  mkfrugal [mkinclude (T "inc") (T "inc.frugal") []] []
+    [mktypedef None (T "Id") (ty0 "i64") []; mktypedef None (T "S2") (ty0 "inc.FarT") []]
+    [mkconst None (T "one") (ty0 "Id") (CInt 1) [];
+     mkconst None (T "shorts") (ty0 "inc.Shorts") (CList [CInt (-32768); CInt 32767]) [];
+     mkconst None (T "col") (ty0 "inc.Color") (CInt 2) [];
+     mkconst None (T "col2") (ty0 "inc.Color") (CIdent (T "inc.Color.GREEN")) [];
+     mkconst None (T "s") (ty0 "S2") (CMap [(CIdent (T "a"), CIdent (T "inc.farInt")); kv "c" (CInt 1);
+                                           kv "nosuch" (CList [CIdent (T "nope")])]) [];
+     mkconst None (T "m") (tym (ty0 "string") (tyl (ty0 "double"))) (CMap [kv "k" (CList [CInt 1; CIdent (T "one")])]) [];
+     mkconst None (T "later") (ty0 "i32") (CIdent (T "one")) []]
+    [] [mkstruct None (T "D") [fldd 1 "x" (ty0 "Id") (CIdent (T "one")); fldd 2 "far" (ty0 "inc.FarS") (CMap [kv "a" (CInt 7)])] 0 []]
+    [mkstruct None (T "X") [fldd 1 "m" (ty0 "string") (CStr (T "boom"))] 1 []] []
+    [mkservice None (T "Sv") [] [mkmethod None (T "f") false None [fldd 1 "a" (tyl (ty0 "bool")) (CList [CBool true])]
+                                          [fldd 1 "e" (ty0 "X") (CMap [kv "m" (CStr (T "x"))])] []] []] [].
+Definition vx_fs : pfs := [([T "root.frugal"], FParsed vx_root); ([T "inc.frugal"], FParsed vx_inc)].
+Lemma values_example_accepted :
+  match cparse_program vx_fs [T "root.frugal"] with
+  | POk (FTree _ f incs) => cvalidate (validate_fuel f incs) f incs = ROk /\ length (fr_constants f) = 7%nat
+  | _ => False
+  end.
+Proof. vm_compute. split; reflexivity. Qed.
+Lemma values_example_conform :
+  match cparse_program vx_fs [T "root.frugal"] with
+  | POk (FTree _ f incs) => values_conform f incs
+  | _ => False
+  end.
+Proof.
+  pose proof values_example_accepted as H. destruct (cparse_program vx_fs [T "root.frugal"]) as [[n f incs]| | |]; try contradiction.
+  destruct H as [H _]. eapply validated_constants_fit. exact H.
+Qed.
+
+(** x.frugal: include "sub/x.frugal"     sub/x.frugal: (empty) -- no cycle.  Before the repair of
+    C11-K14 it was rejected as one; now the diagnostic says what is wrong with it *)
 Definition w_same_name : pfs :=
   [([T "x.frugal"], FParsed (mkfrugal [mkinclude (T "x") (T "sub/x.frugal") []] [] [] [] [] [] [] [] [] []));
    ([T "sub"; T "x.frugal"], FParsed empty_frugal)].
-Lemma include_same_name_refuted :
+Lemma include_same_name_pinned_refuted :
   pfs_get w_same_name [T "sub"; T "x.frugal"] = Some (FParsed empty_frugal)
-  /\ cparse_program w_same_name [T "sub"; T "x.frugal"] = POk (FTree (T "x") empty_frugal [])
-  /\ cparse_program w_same_name [T "x.frugal"] = PErr (T "Include sub/x.frugal: Circular include: [x x]").
+  /\ cparse_program_pinned w_same_name [T "sub"; T "x.frugal"] = POk (FTree (T "x") empty_frugal [])
+  /\ cparse_program_pinned w_same_name [T "x.frugal"] = PErr (T "Include sub/x.frugal: Circular include: [x x]").
 Proof. repeat split; vm_compute; reflexivity. Qed.
+Lemma include_same_name_diagnosed :
+  cparse_program w_same_name [T "sub"; T "x.frugal"] = POk (FTree (T "x") empty_frugal [])
+  /\ cparse_program w_same_name [T "x.frugal"]
+     = PErr (T "Include sub/x.frugal: Duplicate file name x: sub/x.frugal is included by way of x.frugal (includes and generated code are named after the file name)").
+Proof. split; vm_compute; reflexivity. Qed.
+
+(** two different files of one name which are never on one chain of includes are accepted; a file
+    reached twice (a diamond) is no cycle; a file which includes itself under another spelling of
+    its path is one *)
+Definition inc1 (v : string) : frugal := mkfrugal [mkinclude [] (T v) []] [] [] [] [] [] [] [] [] [].
+Definition inc2 (v w : string) : frugal := mkfrugal [mkinclude (T v) (T v) []; mkinclude (T w) (T w) []] [] [] [] [] [] [] [] [] [].
+Definition w_off_chain : pfs :=
+  [([T "r.frugal"], FParsed (inc2 "c.frugal" "b.frugal"));
+   ([T "a.frugal"], FParsed empty_frugal); ([T "c.frugal"], FParsed (inc1 "p/common.frugal")); ([T "b.frugal"], FParsed (inc1 "q/common.frugal"));
+   ([T "p"; T "common.frugal"], FParsed empty_frugal); ([T "q"; T "common.frugal"], FParsed (inc1 "../a.frugal"))].
+Definition w_self_spelled : pfs := [([T "s.frugal"], FParsed (inc1 "d/../s.frugal"))].
+Lemma include_paths_examples :
+  (exists t, cparse_program w_off_chain [T "r.frugal"] = POk t)
+  /\ cparse_program w_self_spelled [T "s.frugal"] = PErr (T "Include d/../s.frugal: Circular include: [s s]").
+Proof. split; [eexists; vm_compute; reflexivity|vm_compute; reflexivity]. Qed.
+
+(** the two diagnostics of the include check, for every file system and every chain: a file whose
+    cleaned path is on the chain is a circular include; a file whose path is not on the chain but
+    whose name is, is a duplicate file name and never reported as circular *)
+Definition circular_msg (visited : chain) (name : bytes) : bytes :=
+  cat [T "Circular include: "; fmt_strings (map fst visited ++ [name])].
+Definition duplicate_msg (name : bytes) (p q : path) : bytes :=
+  cat [T "Duplicate file name "; name; T ": "; join_slash p; T " is included by way of "; join_slash q;
+       T " (includes and generated code are named after the file name)"].
+Lemma dup_name_some name c : In name (map fst c) -> exists q, dup_name name c = Some q /\ In (name, q) c.
+Proof.
+  induction c as [|[n q] c IH]; cbn [map fst dup_name]; [intros []|].
+  destruct (beqb n name) eqn:E.
+  - intros _. apply beqb_eq in E. subst n. exists q. split; [reflexivity|left; reflexivity].
+  - intros [H|H]; [subst n; rewrite beqb_refl in E; discriminate|].
+    destruct (IH H) as (q' & H1 & H2). exists q'. split; [exact H1|right; exact H2].
+Qed.
+Lemma include_check_by_path fuel fs p visited e name :
+  pfs_get fs p = Some e -> file_stem p = Some name ->
+  (In p (map snd visited) -> cparse (S fuel) fs p visited = PErr (circular_msg visited name))
+  /\ (~ In p (map snd visited) -> In name (map fst visited) ->
+      exists q, In (name, q) visited /\ cparse (S fuel) fs p visited = PErr (duplicate_msg name p q)).
+Proof.
+  intros G S. cbn [cparse]. rewrite G, S. split.
+  - intros Hin. assert (existsb (path_eqb p) (map snd visited) = true) as ->; [|reflexivity].
+    apply existsb_exists. exists p. split; [exact Hin|].
+    clear. induction p as [|x p IH]; [reflexivity|]. cbn [path_eqb]. rewrite beqb_refl, IH. reflexivity.
+  - intros Hnot Hname. assert (existsb (path_eqb p) (map snd visited) = false) as ->.
+    { destruct (existsb _ _) eqn:E; [|reflexivity]. apply existsb_exists in E as (q & Hq & E).
+      apply path_eqb_eq in E. subst q. contradiction. }
+    destruct (dup_name_some _ _ Hname) as (q & -> & Hq). exists q. split; [exact Hq|reflexivity].
+Qed.
 
 (** the hypotheses of totality are needed: an empty service name panics LowercaseFirstLetter; a
     typedef target that starts with a dot (typedef .A A) passes the circularity check, which
@@ -919,7 +1533,7 @@ Proof.
 Qed.
 
 Lemma cparse_fuel_bound fs : fs_names_ok fs -> forall fuel p visited,
-  NoDup visited -> incl visited (stems fs) -> (length fs - length visited < fuel)%nat ->
+  NoDup (map fst visited) -> incl (map fst visited) (stems fs) -> (length fs - length visited < fuel)%nat ->
   graceful (pres_res (cparse fuel fs p visited)).
 Proof.
   intros H fuel p visited H1 H2 H3. pose proof (cparse_good fs H fuel p visited H1 H2 H3) as G.
@@ -961,3 +1575,38 @@ Lemma validation_nonvacuous :
      | _ => False
      end.
 Proof. split; [exact example_names_ok|exact example_accepted]. Qed.
+
+Lemma value_pass_total_res fuel f incs :
+  file_names_ok f -> incs_wellvalidated incs -> (validate_fuel f incs <= fuel)%nat ->
+  cvalidate_decls fuel f incs = ROk ->
+  graceful (vr_res (check_values fuel f incs)).
+Proof.
+  intros Hn Hi Hf Hd. apply vgraceful_res. apply check_values_graceful.
+  destruct Hn as (_ & _ & Hn). eapply home_scope_ok; eauto.
+Qed.
+
+Lemma values_example_full :
+  match cparse_program vx_fs [T "root.frugal"] with
+  | POk (FTree _ f incs) => cvalidate (validate_fuel f incs) f incs = ROk /\ length (fr_constants f) = 7%nat
+                            /\ values_conform f incs
+  | _ => False
+  end.
+Proof.
+  pose proof values_example_accepted as H1. pose proof values_example_conform as H2.
+  destruct (cparse_program vx_fs [T "root.frugal"]) as [[n f incs]| | |]; try contradiction.
+  destruct H1 as [A B]. auto.
+Qed.
+
+(** what validation still does not see: constants which refer to each other in a circle
+    (const i32 a = b, const i32 b = a) conform -- a reference is judged by the declared type of
+    the constant it names -- and are accepted; the generators write the references out as they
+    are (Go: initialization cycle).  Finding C11-K15. *)
+Definition w_const_cycle : frugal :=
+  mkfrugal [] [] []
+    [mkconst None (T "a") (ty0 "i32") (CIdent (T "b")) []; mkconst None (T "b") (ty0 "i32") (CIdent (T "a")) []]
+    [] [] [] [] [] [].
+Lemma constant_cycle_accepted_refuted :
+  cvalidate 10 w_const_cycle [] = ROk
+  /\ c_value (nth 0 (fr_constants w_const_cycle) (mkconst None [] (ty0 "i32") COther [])) = CIdent (T "b")
+  /\ c_value (nth 1 (fr_constants w_const_cycle) (mkconst None [] (ty0 "i32") COther [])) = CIdent (T "a").
+Proof. repeat split; vm_compute; reflexivity. Qed.
